@@ -192,9 +192,6 @@ Theorem C14_if_not_missing_refuted : refutes w_remove_if_not = true /\ refutes w
   m_call w_remove_if_not = Some (RErr EUndefined) /\ s_call w_remove_if_not = Some (RSeq [0]) /\ s_call w_find_if_not = Some (RElt 1).
 Proof. exact if_not_missing_refuted. Qed.
 Print Assumptions C14_if_not_missing_refuted.
-Theorem C14_substitute_count_refuted : refutes w_subst_count = true /\ refutes w_subst_count0 = true /\ refutes w_subst_count_neg = true.
-Proof. exact substitute_count_refuted. Qed.
-Print Assumptions C14_substitute_count_refuted.
 Theorem C14_mismatch_refuted : refutes w_mismatch_from_end = true.
 Proof. exact mismatch_refuted. Qed.
 Print Assumptions C14_mismatch_refuted.
